@@ -437,11 +437,12 @@ def all_values(r, k):
     return [v[0].as_list() if isinstance(v[0], ParseResults) else v[0] for v in r._tokdict.get(k, [])]
 
 
-def merged(r1, r2):
+def merged(r1, r2, falsy_right_declares=True):
     """expected name view of a concatenation: a name that is list-all on either side lists every value stored on both
-    sides, in order; any other name keeps the last value"""
+    sides, in order; any other name keeps the last value.  falsy_right_declares=False: a right operand that is falsy (no
+    tokens, no names) contributes no list-all declaration (what `__iadd__`'s early return does: F-05f)"""
     d1, d2 = real_name_view(r1), real_name_view(r2)
-    la = set(r1._all_names) | set(r2._all_names)
+    la = set(r1._all_names) | (set(r2._all_names) if (falsy_right_declares or bool(r2)) else set())
     out = dict(d1)
     for k, v in d2.items():
         out[k] = all_values(r1, k) + all_values(r2, k) if k in la else v
@@ -533,7 +534,10 @@ def oracle_pair(g1, g2, env, s1, s2):
             want = merged(r1, r2only)
             got = real_name_view(rs)
             if got != want:
-                bad.append(("sequence", "(g1 + g2): names %r, expected the merge %r of %r and %r" % (got, want, d1, real_name_view(r2only))))
+                # F-05f: `self += other` returns early when `other` is falsy and then drops other's list-all declarations
+                f05f = got == merged(r1, r2only, falsy_right_declares=False)
+                bad.append(("sequence-listall-of-empty-operand-dropped" if f05f else "sequence",
+                            "(g1 + g2): names %r, expected the merge %r of %r and %r" % (got, want, d1, real_name_view(r2only))))
     # optional: unmatched contributes nothing
     ro = parse_ok(pp.Opt(e1) + pp.StringEnd(), "")
     if ro is not None and parse_ok(e1, "") is None and list(ro.keys()):
@@ -583,7 +587,7 @@ def correspond(ctx):
         ctx.case("pair:%r|%r|%r|%r" % (g1, g2, s1, s2), nn > 0, True)
         for k, what in bad:
             nbad += 1
-            ctx.violation("%s:%r|%r|%r|%r" % (k, g1, g2, s1, s2), "g1=%r g2=%r s1=%r s2=%r: %s" % (g1, g2, s1, s2, what),
+            ctx.violation(k if k == "sequence-listall-of-empty-operand-dropped" else "%s:%r|%r|%r|%r" % (k, g1, g2, s1, s2), "g1=%r g2=%r s1=%r s2=%r: %s" % (g1, g2, s1, s2, what),
                           {"kind": "pair", "g1": g1, "g2": g2, "env": env, "s1": s1, "s2": s2})
     # (iv) a name set on an element reports everything that element matched: when the element alone returns two or more tokens,
     # the named value is the list of exactly those tokens (one token: that token, or the one-element list for list-saving elements)
@@ -725,7 +729,7 @@ def search(ctx, reasons):
         ctx.stat("search_cases")
         if res and res[0]:
             for k, what in res[0]:
-                ctx.violation("%s:%r|%r|%r|%r" % (k, g1, g2, s1, s2), "g1=%r g2=%r s1=%r s2=%r: %s" % (g1, g2, s1, s2, what),
+                ctx.violation(k if k == "sequence-listall-of-empty-operand-dropped" else "%s:%r|%r|%r|%r" % (k, g1, g2, s1, s2), "g1=%r g2=%r s1=%r s2=%r: %s" % (g1, g2, s1, s2, what),
                               {"kind": "pair", "g1": g1, "g2": g2, "env": env, "s1": s1, "s2": s2})
             return
 
